@@ -52,7 +52,8 @@ def gen_probe():
         kkeys = [k for kk in sp["kernels"] for k in kk["keys"]]
         sp["as_key"] = draw(st.booleans())
         sp["multi"] = draw(st.booleans())
-        sp["jitter"] = {k: draw(st.sampled_from(["none", "shift", "reveal", "reveal"])) for k in kkeys}
+        # jitter functions for kernel keys and for tracked keys that no kernel samples (e.g. a quantity held fixed within a chain)
+        sp["jitter"] = {k: draw(st.sampled_from(["none", "shift", "reveal", "reveal"])) for k in kkeys + [k for k in sp["included"] if k not in kkeys]}
         if draw(st.integers(0, 3)) == 0:
             sp["jitter"] = {}
         sp["jitter_order"] = draw(st.permutations(sorted(sp["jitter"])))
@@ -166,7 +167,7 @@ def oracle_probe(spec):
     for k in pos:
         got0 = np.asarray(pos[k])[:, 0]
         init = np.asarray(states[k]) if spec["multi"] else np.broadcast_to(np.asarray(states[k])[0], np.asarray(states[k]).shape)
-        kind = spec["jitter"].get(k, "none") if k in kkeys else "none"
+        kind = spec["jitter"].get(k, "none")
         if kind == "none":
             require(np.array_equal(got0, init), "initial-value-not-honoured", lambda: f"key {k}: stored[0]={got0.tolist()} supplied={init.tolist()}; {det}")
         elif kind == "shift":
